@@ -16,6 +16,14 @@ CLAIMED = {
             "Trusted: symx engine (normal-form rewrites validated against z3 and concrete evaluation), z3 5.1, symbolic-aware abs injected "
             "into the module namespace. Bound: index 0..255 quick / 0..1023 thorough; coefficient unbounded.",
             "symbolic execution of the real Python functions (symx) + z3 Int, unsat per path", "3 C12"),
+    "C20": (MC,
+            "Symbolic execution of the real BitstreamReader/BitstreamWriter and of the decoder's read_* functions on the same buffer of "
+            "symbolic bits: per path (one per exp-Golomb length class / end-of-file point / block length) z3 proves equal values, equal tell(), "
+            "written bits = consumed bits, exp-Golomb length = consumed bits; bounded blocks with symbolic length; out-of-range writes; "
+            "seek/tell; and the engine's if-converted functions equal the originals on all bit strings of the bound.",
+            "Trusted: symx engine, z3 5.1, SymFile and list-based bytearray/bitarray stand-ins. Bound: 16 input bits quick, 24-32 thorough "
+            "(values < 2^12); negative block lengths only for the bitstream reader.",
+            "symbolic execution of the real Python I/O classes (symx) + z3 Int, unsat per path", "3 C20"),
     "C11": (MC,
             "Symbolic execution of the real dwt_pad_addition/dwt/idwt/idwt_pad_removal on components whose samples are unbounded symbolic "
             "integers: one path per (filter pair, depths, size, component); every sample of the reconstruction is proved equal to the input "
